@@ -233,6 +233,13 @@ def run(st, tier, seed):
         hs = [(rng.randint(1, 5), rng.randint(3, 6)) for _ in range(rng.randint(2, 3))]
         if len({a_ for a_, _ in hs}) < 2:
             hs[0] = (hs[0][0] + 1 + hs[1][0], hs[0][1])
+        long_stem = (k % 8 == 0)
+        if long_stem:
+            # a helix of well over a hundred base pairs in front: the recursive structure grammar of the compiler runs into the interpreter's
+            # recursion limit there (the program may be refused for that reason - a resource limit, not judged), but whatever IS accepted,
+            # unmutated or with two counts exchanged, must still be balanced
+            hs = [(rng.randint(120, 190), rng.randint(3, 6))] + hs
+            res.count("directed:helices-side-by-side:long-stem")
         gap = [rng.randint(0, 2) for _ in hs]
         total = sum(2 * a_ + l_ + g_ for (a_, l_), g_ in zip(hs, gap))
         sp_ = lambda: rng.choice([" ", " ", "  ", "\t"])
@@ -245,11 +252,12 @@ def run(st, tier, seed):
             base = compile_dir(d, "top", [], [])
             res.evaluations += 1
             res.count("directed:helices-side-by-side")
-            if base is None:
+            if base is None and not long_stem:
                 res.violations.append({"what": "a well-formed program (helices side by side, run-length notation) is rejected", "input": inp0,
                                        "sig": "C09:rejects-valid", "cmd": "pepper-compiler top"})
                 continue
-            judge(base, inp0, "unmutated program", redo=lambda: compile_dir(d, "top", [], [], "des"))
+            if base is not None:
+                judge(base, inp0, "unmutated program", redo=lambda: compile_dir(d, "top", [], [], "des"))
             for mt, what in all_number_swaps(text):
                 with open(os.path.join(d, "top.comp"), "w") as f:
                     f.write(mt)
